@@ -15,6 +15,7 @@ from typing import Any, Dict, Iterator, List, Optional, Tuple
 import plumpy
 from plumpy import ports as pports
 
+from .. import explore
 from .. import refports as R
 from ..refports import NODEFAULT
 from ..vloop import VLoop
@@ -245,7 +246,7 @@ def check_spec(args: Tuple[tuple, int]) -> Dict[str, Any]:
                     continue
                 out['n'] += 1
                 try:
-                    vs = run_case(desc, emissions, final, loop)
+                    vs = explore.guarded_case({'spec': desc, 'emissions': emissions, 'final': final}, run_case, desc, emissions, final, loop)
                 except Exception as exc:  # noqa: BLE001
                     vs = [{'clause': 'harness-raised', 'features': {'exc': type(exc).__name__}, 'detail': repr(exc),
                            'case': {'spec': desc, 'emissions': emissions, 'final': final}}]
